@@ -8,7 +8,7 @@ which is exhaustive).  The result is the map cell -> abstract value, compared wi
 layout oracle of :mod:`iso`.
 """
 from . import ev
-from .interp import Interp, FuncVal
+from .interp import Interp, FuncVal, Raised
 from .src import Unknown
 
 
@@ -92,8 +92,10 @@ class Row:
         if isinstance(i, slice):
             vals = list(v)
             idxs = list(range(*i.indices(n)))
-            if len(idxs) != len(vals):
-                raise Unknown(f'slice store changes the row length ({len(idxs)} cells <- {len(vals)} values)')
+            if len(idxs) != len(vals) and (i.step not in (None, 1)):
+                raise Raised(None, ValueError, f'attempt to assign sequence of size {len(vals)} to extended slice of size {len(idxs)}')
+            # as a bytearray does: a slice store of another length changes the length of the row (the layout comparison then
+            # reports the row as not having the width of the symbol)
             self.cells[i] = vals
         else:
             if not isinstance(i, int):
